@@ -333,6 +333,72 @@ def probe_snapshot():
     return None
 
 
+def probe_launch():
+    """launch_order: interrupt the launch of a worker at every line boundary of the executor code below submit(); afterwards
+    cancel() and stop() must reach the future (it is pending or running), at whichever line the interrupt landed."""
+    import multiprocessing
+    import sys
+    import labtech.runners.process as P
+    fork = multiprocessing.get_context('fork')
+
+    class Ctx:
+        Process = _CtxProc
+
+        def __getattr__(self, name):
+            return getattr(fork, name)
+    made = []
+
+    class RecFuture(P.Future):
+        def __init__(self, *a, **kw):
+            super().__init__(*a, **kw)
+            made.append(self)
+    saved = P.Future
+
+    def attempt(target):
+        ex = P.ProcessExecutor(mp_context=Ctx(), max_workers=1)
+        del made[:]
+        count = [0]
+
+        def local(frame, event, arg):
+            if event == 'line':
+                n = count[0]
+                count[0] += 1
+                if target is not None and n == target:
+                    raise KeyboardInterrupt()
+            return local
+
+        def glob(frame, event, arg):
+            if frame.f_code.co_filename == P.__file__ and frame.f_code.co_name not in ('submit', '__init__', '__hash__', '__eq__'):
+                return local
+            return None
+        sys.settrace(glob)
+        try:
+            try:
+                ex.submit(int)
+            except KeyboardInterrupt:
+                pass
+        finally:
+            sys.settrace(None)
+        lost = False
+        if made:
+            ex.cancel()
+            ex.stop()
+            lost = not made[0].done
+        return count[0], lost
+    try:
+        P.Future = RecFuture
+        total, _ = attempt(None)
+        if not 3 <= total <= 200:
+            return None
+        results = [attempt(k)[1] for k in range(total)]
+        return 'RemoveThenRegister' if any(results) else 'RegisterThenRemove'
+    except Exception:
+        return None
+    finally:
+        P.Future = saved
+        sys.settrace(None)
+
+
 def probe_storage():
     """storage guards of LocalStorage, observed on a scratch directory tree (None where the behaviour is not exactly
     that of the guard)."""
@@ -862,6 +928,7 @@ def all_probes():
     r = _limited(probe_exec) or (None, None, None)
     out['start'], out['ctor'], out['wait'] = r
     out['snap'] = _limited(probe_snapshot)
+    out['launch'] = _limited(probe_launch)
     out.update(_limited(probe_storage) or {})
     r = _limited(probe_cache) or (None, None)
     out['order'], out['cleanup'] = r
